@@ -85,6 +85,17 @@ def eval_case(ctx, case):
                 hs.update(data[:k])
                 hs.update(data[k:])
                 chk("streaming", fmt, hs.string_digest(), extra=f" split at {k}")
+                # a running digest (digest - update - digest on the same object) is the digest of the bytes fed so far
+                hs = H.new_hasher_for_hash_type(fmt)
+                hs.update(data[:k])
+                mid = hs.string_digest()
+                stats["evals"] += 1
+                if mid != ref.digest(fmt, data[:k]):
+                    v.append(Viol(PROP, "digest-mismatch", dict(base_sig, entry="streaming-running", fmt=fmt, multi=False),
+                                  f"running {fmt} digest after the first {k} of {n} bytes: {mid}, standard {ref.digest(fmt, data[:k])}", case))
+                hs.update(data[k:])
+                chk("streaming-running", fmt, hs.string_digest(), extra=f" digest taken at {k}, then updated")
+                chk("streaming-running", fmt, hs.string_digest(), extra=f" digest asked twice")
         for fmts, order in case["sets"]:
             got = H.multiple_format_hash_file(path, list(fmts))
             if set(got) != set(fmts):
@@ -190,18 +201,113 @@ class _Stub:
     def hexdigest(self):
         return "%0128x" % self.value
 
+    def digest(self):
+        return self.value.to_bytes(64, "big")
+
     def update(self, b):
         pass
+
+
+def _inject(H, x):
+    """the tool's C4 text of an arbitrary 512-bit value: a normally constructed C4 hasher whose SHA-512 object is swapped"""
+    c = H.new_hasher_for_hash_type("c4")
+    c.hasher = _Stub(x)
+    return c.string_digest()
+
+
+def injection_works(H):
+    """the seam relies on one internal (the attribute holding the SHA-512 object); it is only used when it reproduces the
+    tool's own answers for real digests - otherwise the codec is driven through the public entry points only"""
+    import hashlib
+    try:
+        for d in (b"", b"abc", padded_inputs()[2][0]):
+            if _inject(H, int.from_bytes(hashlib.sha512(d).digest(), "big")) != H.hash_data(d, "c4"):
+                return False
+        return True
+    except Exception:
+        return False
+
+
+_PADDED = []
+
+
+def padded_inputs():
+    """real inputs whose C4 text has 0, 1, 2, 3 leading zero digits ('1'), found by counting upwards (deterministic)"""
+    if not _PADDED:
+        import hashlib
+        found = {}
+        i = 0
+        while len(found) < 4 or min(len(x) for x in found.values()) < 3:
+            d = b"pad-%d" % i
+            i += 1
+            x = int.from_bytes(hashlib.sha512(d).digest(), "big")
+            k = 0
+            while k < 3 and x < 58 ** (87 - k):
+                k += 1
+            if len(found.setdefault(k, [])) < 3:
+                found[k].append(d)
+            if i > 3_000_000:
+                break
+        _PADDED.extend(found.get(k, []) for k in range(4))
+    return _PADDED
+
+
+def c4_public(ctx, case):
+    """encoder and decoder through public entry points on real inputs with 0..3 leading zero digits"""
+    from ascmhl import hasher as H
+    import hashlib
+    v = []
+    n = 0
+    for k, ins in enumerate(padded_inputs()):
+        for d in ins:
+            raw = hashlib.sha512(d).digest()
+            want = ref.c4_encode(raw)
+            path = os.path.join(ctx.fresh("c01p"), "p.bin")
+            with sub.REAL["open"](path, "wb") as f:
+                f.write(d)
+            gots = {"hash_data": H.hash_data(d, "c4"), "hash_file": H.hash_file(path, "c4"),
+                    "multiple_format_hash_file": H.multiple_format_hash_file(path, ["md5", "c4"]).get("c4")}
+            hs = H.new_hasher_for_hash_type("c4")
+            hs.update(d)
+            gots["streaming"] = hs.string_digest()
+            for entry, got in gots.items():
+                n += 1
+                if got != want:
+                    v.append(Viol(PROP, "c4-encode", {"cls": "leading-zero-digits" if k else "full-width", "entry": entry},
+                                  f"{entry} c4 of {d!r} ({k} leading zero digits): got {got!r}, expected {want!r}", case))
+            n += 1
+            try:
+                back = H.bytes_for_hash_string(want, "c4")
+            except Exception as e:
+                back = repr(e).encode()
+            if back != raw:
+                v.append(Viol(PROP, "c4-decode", {"cls": "leading-zero-digits" if k else "full-width", "entry": "bytes_for_hash_string"},
+                              f"bytes_for_hash_string of {want} = {back[:70]!r}", case))
+    return v, n, n
 
 
 def c4_codec(ctx, vals):
     from ascmhl import hasher as H
     v = []
+    inject = injection_works(H)
     for x in vals:
-        c = H.C4.__new__(H.C4)
-        c.hasher = _Stub(x)
-        got = c.string_digest()
         raw = x.to_bytes(64, "big")
+        want = ref.c4_encode(raw)
+        cls = "leading-zero-digits" if want[2] == "1" else "full-width"
+        case = {"c4_value": "%x" % x}
+        if not inject:
+            # decoder only (public): decode(reference text) == value
+            try:
+                back = H.bytes_for_hash_string(want, "c4")
+            except Exception as e:
+                back = repr(e).encode()
+            if back != raw:
+                v.append(Viol(PROP, "c4-decode", {"cls": cls, "entry": "bytes_for_hash_string"}, f"bytes_for_hash_string of {want} = {back[:70]!r}", case))
+            continue
+        try:
+            got = _inject(H, x)
+        except Exception as e:
+            got = f"<{type(e).__name__}: {e}>"
         want = ref.c4_encode(raw)
         cls = "leading-zero-digits" if want[2] == "1" else "full-width"
         case = {"c4_value": "%x" % x}
@@ -213,15 +319,17 @@ def c4_codec(ctx, vals):
             v.append(Viol(PROP, "c4-decode", {"cls": cls}, f"decode(encode({x:#x})) = {back.hex()}", case))
         if H.bytes_for_hash_string(want, "c4") != raw:
             v.append(Viol(PROP, "c4-decode", {"cls": cls, "entry": "bytes_for_hash_string"}, f"bytes_for_hash_string of {want}", case))
-    return v, len(vals)
+    return v, len(vals), inject
 
 
 def work(ctx, case):
     if "many" in case:
         return many_files(ctx, case)
+    if "c4_public" in case:
+        return c4_public(ctx, case)
     if "c4_values" in case:
-        vs, n = c4_codec(ctx, case["c4_values"])
-        return vs, n, n
+        vs, n, inj = c4_codec(ctx, case["c4_values"])
+        return vs, n, n if inj else -n
     return eval_case(ctx, case)
 
 
@@ -230,6 +338,8 @@ def _eval_only(ctx, case):
         return many_files(ctx, case)[0]
     if "c4_value" in case:
         return c4_codec(ctx, [int(case["c4_value"], 16)])[0]
+    if "c4_public" in case:
+        return c4_public(ctx, case)[0]
     return eval_case(ctx, case)[0]
 
 
@@ -256,14 +366,17 @@ def main(tier, seed):
     fam = c4_family()
     for i in range(0, len(fam), 500):
         cases.append({"c4_values": fam[i:i + 500]})
+    cases.append({"c4_public": True})
     cases.sort(key=lambda c: -c.get("len", 0))
     res = eng.pmap(work, cases, chunksize=1)
     evals = distinct = 0
     for case, (vs, ne, nd) in zip(cases, res):
         eng.add_viols(vs)
         evals += ne
-        distinct += nd
-        eng.outcome(("c4-codec" if "c4_values" in case else ("many-files" if "many" in case else lenclass(case["len"])), "viol" if vs else "ok"))
+        if nd < 0:
+            eng.notes["c4_encoder_injection"] = "unavailable on this tree (internal attribute differs): decoder over the whole family, encoder over real inputs with 0..3 leading zero digits only"
+        distinct += abs(nd)
+        eng.outcome(("c4-public" if "c4_public" in case else "c4-codec" if "c4_values" in case else ("many-files" if "many" in case else lenclass(case["len"])), "viol" if vs else "ok"))
     eng.sample({"length": 3 * MB + 17, "content": "pattern", "format_set": sets[-1][0], "entry_points":
                 ["hash_file", "hash_data", "streaming", "multiple_format_hash_file", "multiple_format_hash_data", "cli-hash", "create", "verify"]})
     eng.sample({"length": MB, "content": "ff", "format_set": sets[0][0]})
